@@ -171,6 +171,24 @@ def run_pair(ctx, ast, layout, layout2, relabel, smiles, state, label=''):
                  'fragment: %s\nmolecule: %s (%s)\nreturned but not denoted: %s\ndenoted but not returned: %s\n(atoms %s)'
                  % (text, smiles, state, extra, missing, [(i, mm.sym[i], mm.chg[i], mm.rad[i]) for i in range(min(mm.n, 12))]))
         return
+    # the same query object on the same molecule with its atoms renumbered: the answer must follow the new numbering
+    if mm.n <= 40:
+        import random
+        rnd = random.Random(sum(map(ord, text + smiles)))
+        base_mol = Chem.AddHs(mol) if state == 'as-read' else mol
+        perm = list(range(base_mol.GetNumAtoms()))
+        rnd.shuffle(perm)
+        m2 = Chem.RenumberAtoms(base_mol, perm)
+        Chem.GetSymmSSSR(m2)        # RenumberAtoms drops the ring information; perceive it the way sanitisation does (symmetrised)
+        try:
+            want2 = ringref.matches(ringref.MolModel(m2), ref_ast)
+            got2r = set(tuple(t) for t in q.GetQueryMatches(m2))
+            ctx.count()
+            if got2r != want2:
+                ctx.fail('same-query-object-on-renumbered-molecule', 'after matching %s, the same query object on the renumbered molecule returns %s, denoted %s\nfragment: %s'
+                         % (smiles, sorted(got2r)[:4], sorted(want2)[:4], text))
+        except Exception as e:
+            ctx.fail('renumbered-molecule-raises:%s' % type(e).__name__, '%s: %s\nfragment: %s molecule %s' % (type(e).__name__, str(e)[:200], text, smiles))
     # layout / label names do not matter
     ast2 = dict(ast, atoms=[dict(a, label=l) for a, l in zip(ast['atoms'], relabel)], name='other_name')
     text2 = ringast.render(ast2, layout2)
@@ -194,7 +212,7 @@ def check_pair(ctx, case):
 # -- bounded exhaustive ---------------------------------------------------------------------------------
 SMALL_MOLS = ['C', 'CC', 'C=C', 'C#C', 'CO', 'C=O', 'O', 'OO', '[CH3]', '[CH2]', 'C[CH2]', 'C[O]', 'CC(=O)[O-]', '[NH4+]',
               'C1CC1', 'C1CO1', 'C1=CC1', 'c1ccccc1', 'C[Pt]', '[Pt]C[Pt]', 'C=C[Pt]', 'O=C=O', 'CC=O', 'C[NH3+]', 'N', 'CN',
-              '[H][H]', 'OC[Pt]', 'C1CC2CC12', '[CH]=C', 'C1CC2CCC12', 'C[CH2+]', '[CH2-]C', 'C1CC2CCCC12', 'C[O-]']
+              '[H][H]', 'OC[Pt]', 'C1CC2CC12', '[CH]=C', 'C1CC2CCC12', 'C[CH2+]', '[CH2-]C', 'C1CC2CCCC12', 'C[O-]', 'C12CC(C1)C2', 'C1CC2CCC1CC2']
 EX_SYMS = ['C', 'O', 'H', '$', '&', 'X', 'Pt', 'M', 'N']
 EX_SUF = [None, '+', '-', '.', ':', '+.', '-.', '?']
 EX_PRE = [None, 'aromatic', 'nonaromatic', 'ringatom', 'nonringatom']
